@@ -232,9 +232,20 @@ func ruleScanClass(c *Ctx) []Ob {
 		return -1
 	}
 	need := map[string]int64{"Map": kind("Map"), "Ptr": kind("Ptr"), "Slice": kind("Slice"), "String": kind("String"), "Struct": kind("Struct")}
-	nt := c.SSA[pkgReflect].Func("newTType")
+	var nt *ssa.Function
+	for _, fn := range c.ModuleFuncs(pkgReflect) {
+		for _, b := range fn.Blocks {
+			for _, ins := range b.Instrs {
+				if st, ok := ins.(*ssa.Store); ok {
+					if _, typ, f, ok := fieldOf(st.Addr); ok && typ == "tType" && f == "MallocAbiType" {
+						nt = fn
+					}
+				}
+			}
+		}
+	}
 	if nt == nil {
-		s.bad("newTType", "-", "not found")
+		s.bad("newTType:MallocAbiType", "-", "MallocAbiType is never set")
 	} else {
 		found := false
 		for _, b := range nt.Blocks {
